@@ -3,6 +3,7 @@ Mutator.mutate (and each mutation strategy directly) on closed trees and records
 A task is a *unit*: one fuzzer / mutator object that processes a list of trees in order (the
 coverage fuzzer carries state from one call to the next), so a unit is also what a replay re-runs."""
 import random
+import signal
 
 from isla.derivation_tree import DerivationTree
 from isla.fuzzer import GrammarCoverageFuzzer, GrammarFuzzer
@@ -11,6 +12,22 @@ from isla.mutator import Mutator
 from harness import project as pj
 
 STRATEGIES = ("replace_subtree_randomly", "swap_subtrees", "generalize_subtree")
+
+
+class StepTimeout(BaseException):
+    """wall-clock cap of one call (the properties say nothing about speed: such a step is unjudged)"""
+
+
+def capped(seconds, fn):
+    def handler(signum, frame):
+        raise StepTimeout()
+    old = signal.signal(signal.SIGALRM, handler)
+    signal.setitimer(signal.ITIMER_REAL, seconds)
+    try:
+        return fn()
+    finally:
+        signal.setitimer(signal.ITIMER_REAL, 0)
+        signal.signal(signal.SIGALRM, old)
 
 
 def _exc(ex):
@@ -30,8 +47,10 @@ def run(task):
             step = {"op": "expand_tree", "kind": "expand", "pre": pj.tree_to_json(pre)}
             random.seed(seed * 1000 + k)
             try:
-                post = fuzzer.expand_tree(pre)
+                post = capped(task["cap"], lambda: fuzzer.expand_tree(pre))
                 step.update(res="ok", exc="", post=pj.tree_to_json(post))
+            except StepTimeout:
+                step.update(res="timeout", exc="", post=step["pre"])
             except BaseException as ex:
                 if isinstance(ex, (KeyboardInterrupt, SystemExit)):
                     raise
@@ -47,13 +66,15 @@ def run(task):
             random.seed(seed * 1000 + k)
             try:
                 if op == "mutate":
-                    post = mut.mutate(pre)
+                    post = capped(task["cap"], lambda: mut.mutate(pre))
                 else:
-                    post = getattr(mut, op)(pre).value_or(None)
+                    post = capped(task["cap"], lambda: getattr(mut, op)(pre).value_or(None))
                 if post is None:
                     step.update(res="nothing", exc="", post=step["pre"])
                 else:
                     step.update(res="ok", exc="", post=pj.tree_to_json(post))
+            except StepTimeout:
+                step.update(res="timeout", exc="", post=step["pre"])
             except BaseException as ex:
                 if isinstance(ex, (KeyboardInterrupt, SystemExit)):
                     raise
